@@ -22,6 +22,10 @@ MANIFEST = {
             "recorded sha1 is corrupted in a copy of the trace and TLC must reject it there.  Templates: P1/P2 "
             "mass+stiffness, mixed element with >= 3 sub-elements, two meshes, prism (two kernels per facet integral), "
             "several quadrature degrees in one form, coefficients+constants, interior facets, quadrilateral/hexahedron, "
+            "groups that share every plausible memo key (same cell, quadrature degree and scheme, same form shape: P1 / iso "
+            "macro element / P2 / DG1 / vector P1; P3 gll_warped / equispaced / legendre; custom rules with equal points and "
+            "different weights; Q1 / DQ1 / tensor-product Q1) for which TLC enumerates [X], [X, Y] and 'Y after X in one "
+            "process' is lived for every ordered pair of a group (thorough: of all group templates), "
             "H(div)/H(curl), manifold, P2 geometry, expressions; thorough adds every demo/*.py loaded as ffcx.main does.",
     "design_ref": "DESIGN.md section 4 C12, section 6 F3/F4",
     "note": "Trusted: the projections in harness/histdrv/worker.py (sha1 of the returned texts, UFL signatures as the "
